@@ -8,7 +8,7 @@ mkdir -p "$T/repo" "$T/out"
 (cd /repo && git ls-files -z | xargs -0 cp --parents -t "$T/repo")
 (cd "$T/repo" && patch -s -p1 < "$1" >/dev/null 2>&1) || { echo "PATCH-FAILED"; exit 3; }
 (cd "$T/repo" && go build ./... >/dev/null 2>&1) || { echo "BUILD-FAILED"; exit 4; }
-"$HERE/bin/ucanlint" -property all -repo "$T/repo" -verif "$HERE" -out "$T/out" > "$T/log" 2>&1
+"${UCANLINT:-$HERE/bin/ucanlint}" -property all -repo "$T/repo" -verif "$HERE" -out "$T/out" > "$T/log" 2>&1
 n=$(grep -c '^VIOLATION' "$T/log")
 echo "violations=$n $(grep 'key:' "$T/log" | sed 's/^ *key: //' | cut -c1-110 | tr '\n' ';')"
 [ "${VERBOSE:-0}" = 1 ] && grep -A9 '^VIOLATION' "$T/log" | cut -c1-300
